@@ -1,6 +1,7 @@
 use crate::fw::{Ctx, Report, Verdict};
 
 pub mod c05;
+pub mod srvchk;
 pub mod c12;
 pub mod c14;
 pub mod c15;
@@ -27,6 +28,7 @@ pub fn lookup(id: &str) -> Option<Entry> {
         };
     }
     match id {
+        "C01" | "C02" | "C03" | "C08" | "C09" => e!(srvchk),
         "C05" => e!(c05),
         "C07" => e!(c05),
         "C12" => e!(c12),
